@@ -1,0 +1,15 @@
+//go:build verif
+
+// Contracts for package middleware, read by the verification-condition
+// generator in /verif (govc).  Comment-only.
+
+package middleware
+
+// The handler returned by Harden: a request the browser marks as cross-site,
+// and any CORS preflight, is answered 403 and never reaches the wrapped handler.
+//@ props C20 C16
+//@ func Harden$1
+//@   nopanic
+//@   requires r != nil && r.URL != nil
+//@   ensures [C20] sid(old(r.Header["Sec-Fetch-Site"][0])) == sid("cross-site") && old(in(r.Header, "Sec-Fetch-Site")) && old(len(r.Header["Sec-Fetch-Site"])) > 0 ==> calls(next) == old(calls(next)) && httpstatus(w) == 403
+//@   ensures [C20] old(r.Method) == "OPTIONS" && old(in(r.Header, "Origin")) && old(len(r.Header["Origin"])) > 0 && old(len(r.Header["Origin"][0])) > 0 ==> calls(next) == old(calls(next)) && httpstatus(w) == 403
